@@ -805,12 +805,21 @@ class Inliner(object):
     if not self._inlinable(callee, stack):
       return None
     body = _strip_doc(callee.node.body)
-    if len(body) != 1 or not isinstance(body[0], ast.Return) or body[0].value is None:
+    # one returned expression, possibly computed through plain single-assignment locals
+    if not body or not isinstance(body[-1], ast.Return) or body[-1].value is None or \
+        not all(isinstance(b, ast.Assign) and len(b.targets) == 1 and
+                isinstance(b.targets[0], ast.Name) for b in body[:-1]):
       return None
     args = bind_call(call, callee, bound=bound)
     if args is None:
       return None
-    e = _copy.deepcopy(body[0].value)
+    if len(body) > 1:
+      hx = Expander(callee.node)
+      if not all(b.targets[0].id in hx.vals for b in body[:-1]):
+        return None
+      e = hx.expand(body[-1].value)
+    else:
+      e = _copy.deepcopy(body[-1].value)
     inner = set()
     for x in ast.walk(e):
       if isinstance(x, ast.Name) and isinstance(x.ctx, ast.Store):
